@@ -3,6 +3,8 @@ import GoProbeModel.Spec.C13
 import GoProbeModel.Spec.C22
 import GoProbeModel.Spec.C01
 import GoProbeModel.Spec.C16
+import GoProbeModel.Spec.C14
+import GoProbeModel.Spec.C23
 
 /-!
 `gpjudge`: executable specs. Reads lines `<Cxx> <case fields…> => <implementation output>` and
@@ -13,5 +15,7 @@ def main : IO Unit := DriverLoop.runJudge [
   ("C13", C13.judge),
   ("C22", C22.judge),
   ("C01", C01.judge),
-  ("C16", C16.judge)
+  ("C16", C16.judge),
+  ("C14", C14.judge),
+  ("C23", C23.judge)
 ]
